@@ -680,7 +680,14 @@ impl World for BddWorld {
         // one run in 300 is a marathon: tens of thousands of operations on ONE builder (counters, statistics,
         // caches and tables that have seen many growths and overwrites)
         let marathon = c.below(300) == 0;
-        let len = if marathon { 20_000 + o.below(60_000) } else { 10 + o.below(if thorough { 300 } else { 140 }) };
+        let len = if marathon { 30_000 + o.below(70_000) } else { 10 + o.below(if thorough { 300 } else { 140 }) };
+        if marathon && c.bool() {
+            // half of the marathons are dominated by one family of calls (here: conditioning in all its forms), so
+            // that per-call counters of that family go round more than 2^16 times
+            for k in [K_COND, K_EXISTS, K_COMPOSE, K_CONDMODEL] {
+                w[k as usize] = w[k as usize].max(4) * 8;
+            }
+        }
         let mut ops = Vec::new();
         for _ in 0..len {
             let caller = s.below(ncallers) as u8;
